@@ -150,7 +150,7 @@ class Result:
             "violations": nviol,
         }
         d = pathlib.Path(os.environ.get("VERIF_EVIDENCE_DIR") or (VERIF / "evidence"))   # seed/self-test runs divert their evidence
-        d.mkdir(exist_ok=True)
+        d.mkdir(parents=True, exist_ok=True)
         tmp = d / f".{self.pid}.json.tmp"
         tmp.write_text(json.dumps(ev, indent=1, default=str))
         os.replace(tmp, d / f"{self.pid}.json")
@@ -175,7 +175,7 @@ def load_known():
 
 def write_replay(pid, f: Finding) -> str:
     d = pathlib.Path(os.environ.get("VERIF_REPLAY_DIR") or (VERIF / "replays"))
-    d.mkdir(exist_ok=True)
+    d.mkdir(parents=True, exist_ok=True)
     h = hashlib.sha256(f.key.encode()).hexdigest()[:10]
     p = d / f"{pid}-{h}.md"
     body = [f"# {pid} violation", "", f"* rule: `{f.rule}`", f"* construct: `{f.construct}`", f"* abstract-input class: `{f.cls}`",
